@@ -342,6 +342,8 @@ class Model:
         self.ts_completed_seq = {}       # serial -> log sequence number when its callback had returned
         self.arrival_seq = None          # log sequence number when the tty queue last went from empty to non-empty
         self.boundaries = {0}            # offsets in the tty stream at which a typed key ends
+        self.bound_list = [0]            # the same, ascending
+        self.entered_bounds = {0}        # offsets in `entered` at which a typed key ends
         self.arrived_total = 0
         self.tty_read_total = 0
 
@@ -408,6 +410,12 @@ def _execute(p, s, res):
     SEv.next_serial = [None]
 
     def on_tty_read(fd, data):
+        import bisect
+        a, base = M.tty_read_total, len(M.entered)
+        i = bisect.bisect_right(M.bound_list, a)
+        while i < len(M.bound_list) and M.bound_list[i] <= a + len(data):
+            M.entered_bounds.add(base + M.bound_list[i] - a)
+            i += 1
         M.entered.extend(data)
         M.req_reads.append(len(data))
         M.tty_read_total += len(data)
@@ -436,11 +444,13 @@ def _execute(p, s, res):
         if completes:                       # second half of a split key: one key end, at its end
             M.arrived_total += len(data)
             M.boundaries.add(M.arrived_total)
+            M.bound_list.append(M.arrived_total)
             return
         whole = data[:len(data) - partial_tail] if partial_tail else data
         for n in _key_lengths(whole):
             M.arrived_total += n
             M.boundaries.add(M.arrived_total)
+            M.bound_list.append(M.arrived_total)
         M.arrived_total += partial_tail     # first half of a split key: no key end inside it
 
     def env_arrive(payload):
@@ -553,6 +563,13 @@ def _execute(p, s, res):
         for c in sorted(set(cands), key=len, reverse=True):
             if c and M.entered[M.pos:M.pos + len(c)] == c:
                 M.pos += len(c)
+                if in_paste and not cfg["split"] and M.pos not in M.entered_bounds:
+                    # keypresses arrive whole and the paste loop refills before its buffer runs out:
+                    # inside a paste every returned key is a typed key
+                    _violate(res, "paste_keypress_broken_up_or_merged", si,
+                             {"returned_key": repr(key), "ends_at": M.pos,
+                              "context": repr(bytes(M.entered[max(0, M.pos - 10):M.pos + 6]))})
+                    return False
                 return True
         _violate(res, "bytes_lost_duplicated_or_reordered", si,
                  {"returned_key": repr(key), "expected_next_bytes": repr(rest), "position": M.pos,
@@ -757,6 +774,10 @@ def _execute(p, s, res):
                         world.probe("unget_ahead_of_stream")
                     world.log.add("unget", data)
                     inp.unget_bytes(data)
+                    off = len(M.entered)
+                    for n in _key_lengths(data):
+                        off += n
+                        M.entered_bounds.add(off)
                     M.entered.extend(data)
                 elif op == "event":
                     call_event("main")
